@@ -1550,6 +1550,9 @@ func (ctx Ctx) defineStmt(s *ast.AssignStmt) coq.Binding {
 			ctx.nope(lhsExpr, "defining a non-identifier")
 		}
 	}
+	if len(idents) > 4 {
+		ctx.unsupported(s, "destructuring more than 4 return values")
+	}
 	var names []string
 	for _, ident := range idents {
 		names = append(names, ident.Name)
